@@ -129,7 +129,7 @@ def run_case(case, ctx):
     rng = rng_for(ctx.seed, "c10", case["kind"], case["chunk"], case["rep"])
     root = ctx.scratch / f"c10-{case['kind']}-{case['chunk']}-{case['rep']}"
     root.mkdir()
-    annot.install_templates(root, ["custom", "commented", "nocontrib"])
+    annot.install_templates(root, ["custom", "commented", "nocontrib", "fixedtag"])
     styles = ctx.state["styles"]
     try:
         if case["kind"] == "types":
@@ -178,6 +178,13 @@ def run_case(case, ctx):
                             elif r < 0.7:
                                 extra = ["-c", "Jane Doe", "-l", "MIT", "--year", "2016", "--year", rng.choice(["2020", "2011", "2016"]),
                                          "--merge-copyrights"] + rng.choice([[], ["--copyright-prefix", "string-c"], ["-c", "Second Holder"]])
+                            elif r < 0.74:
+                                extra += ["--template", "fixedtag"]
+                            elif r < 0.77:
+                                # a header longer than any "header window": several KiB of notices
+                                extra = ["-l", "MIT", "--year", "2020"]
+                                for h in range(rng.randint(75, 95)):
+                                    extra += ["-c", f"Holder Number {h:03d} of a very long list <holder{h}@example.com>"]
                         double_run(res, ctx, root, f"d{len(res.sigs)}_{res.n}/" + t["fname"], body, extra, t, mode,
                                    f"{t['key']} ({t['short']}) body={bname}", rng, 5 if rng.random() < 0.3 else 2)
                         res.cell(f"style:{t['short']}")
